@@ -178,7 +178,19 @@ def unbounded_case(M, m, n, kkind, direction):
     cs = corners(n)
     rows = 1
     if direction == "sound":
-        B = M.real("B", (rows, m), sample=lambda r, s: r.uniform(0.5, 9.0, size=s))
+        def _b_sample(r, s):
+            # concrete modes: half of the targets lie just "below" the apex of the cone (towards the point whose coordinates all equal the apex's smallest one):
+            # not reproducible (they would need x < lb), and the place where an offset error of the membership test shows
+            v = M.values
+            Ae, be = fs.effective_model(v["A"], v.get("K"), v.get("base"), kkind)
+            apex = np.array(fs.predict(Ae, be, list(v["lb"])), dtype=float)
+            out = r.uniform(0.5, 9.0, size=s)
+            for i in range(s[0]):
+                if r.uniform() < 0.5:
+                    mu = r.uniform(0.2, 0.8)
+                    out[i] = apex.min() + mu * (apex - apex.min())
+            return out
+        B = M.real("B", (rows, m), sample=_b_sample)
     else:
         sx = M.real("sx", (rows, n), sample=lambda r, s: r.uniform(0.0, 2.0, size=s) * r.choice([0.0, 1.0, 1.0], size=s))
         for v in np.asarray(sx).ravel():
